@@ -32,6 +32,214 @@ fn c16c_aggregate_key_from_str_6() {
     check_agg::<6>();
 }
 
+
+//------------ C05(f): Routes::process_updates -----------------------------------
+//
+// The map inside `Routes` is the association-list model (harness/kani_map.rs).
+use crate::api::roa::verif_kani::{any_payload_v4, any_payload_v6, any_v4, spec_held_v4, spec_len_valid};
+use crate::api::roa::TypedPrefix;
+use crate::config::verif_kani::stub_now;
+
+fn key(p: RoaPayload) -> RoaPayloadJsonMapKey { RoaPayloadJsonMapKey::from(p) }
+
+/// The prefix the CA of the harness holds.  `RoaPayload::held_by` is replaced
+/// by its bit-level specification for a CA holding exactly this one IPv4
+/// prefix; `c05b_held_by_v4` shows, for every payload and every held prefix,
+/// that the real `held_by` on the `ResourceSet` built from that prefix returns
+/// exactly this value (the real function walks rpki's IP block chains, which
+/// together with the map code exceeded the memory cap).
+static mut HELD: Option<crate::api::roa::Ipv4Prefix> = None;
+
+fn hold(p: crate::api::roa::Ipv4Prefix) { unsafe { HELD = Some(p); } }
+
+pub(crate) fn stub_held_by(p: RoaPayload, _resources: &ResourceSet) -> bool {
+    match unsafe { HELD } {
+        Some(h) => spec_held_v4(h, &p),
+        None => false,
+    }
+}
+
+/// A comment: absent (`CM` false) or a one-letter text whose letter is
+/// chosen by the solver (the allocation is concrete, only the letter varies).
+fn comment<const CM: bool>() -> (u8, Option<String>) {
+    if CM {
+        let k: u8 = kani::any();
+        kani::assume(k == b'x' || k == b'y');
+        (k, Some(unsafe { String::from_utf8_unchecked(vec![k]) }))
+    } else {
+        (0, None)
+    }
+}
+
+/// A ROA delta against a configuration of zero or one authorisation, for a
+/// CA holding one arbitrary IPv4 prefix.  The *shape* (is there an existing
+/// entry, a removal, one or two additions) is fixed per harness so that the
+/// control flow of the set-up is concrete; every payload, max length, origin
+/// and comment is symbolic.  The delta is refused exactly when the removal
+/// names an authorisation that is not present, or an addition has an invalid
+/// maximum length, or a prefix that is not held, or is already present
+/// (after the removal and the earlier additions of the same delta) with the
+/// same comment.  When accepted the new configuration is exactly (old minus
+/// removed) plus added; when refused nothing is returned that could be
+/// applied (all or nothing); in both cases the configuration the delta was
+/// computed from is unchanged.
+fn roa_delta<const HAVE: bool, const REM: bool, const ADDS: usize, const CM: bool>() {
+    let held = any_v4();
+    hold(held);
+    let resources = ResourceSet::default();   // not read: held_by is the stub above
+    let e0 = any_payload_v4();
+    let (e0_k, e0_comment) = comment::<CM>();
+    let mut routes = Routes::default();
+    if HAVE {
+        routes.add(key(e0));
+        if CM { routes.update_comment(&key(e0), e0_comment); }
+    }
+    let r = any_payload_v4();
+    let a = any_payload_v4();
+    let (ak, acomment) = comment::<CM>();
+    let b = any_payload_v4();
+    let (bk, bcomment) = comment::<CM>();
+    let mut added = Vec::new();
+    if ADDS >= 1 { added.push(RoaConfiguration { payload: a, comment: acomment }); }
+    if ADDS >= 2 { added.push(RoaConfiguration { payload: b, comment: bcomment }); }
+    let updates = RoaConfigurationUpdates { added, removed: if REM { vec![r] } else { Vec::new() } };
+    let ca = CaHandle::new("ca".into());
+    let res = routes.process_updates(&ca, &resources, &updates);
+
+    // --- specification: a list of (payload, comment kind) pairs
+    let rem_ok = !REM || (HAVE && r == e0);
+    let e0_left = HAVE && !(REM && r == e0);
+    // first addition
+    let a_same_as_e0 = e0_left && a == e0;
+    let a_dup = a_same_as_e0 && ak == e0_k;
+    let a_ok = ADDS < 1 || (spec_len_valid(&a) && spec_held_v4(held, &a) && !a_dup);
+    let a_inserted = ADDS >= 1 && spec_len_valid(&a) && spec_held_v4(held, &a) && !a_same_as_e0;
+    // second addition sees the first one if that was inserted
+    let b_same_as_e0 = e0_left && b == e0;
+    let b_same_as_a = a_inserted && b == a;
+    let b_dup = (b_same_as_e0 && bk == e0_k) || (b_same_as_a && bk == ak);
+    let b_ok = ADDS < 2 || (spec_len_valid(&b) && spec_held_v4(held, &b) && !b_dup);
+    let b_inserted = ADDS >= 2 && spec_len_valid(&b) && spec_held_v4(held, &b) && !b_same_as_e0 && !b_same_as_a;
+    let accept = rem_ok && a_ok && b_ok;
+    match &res {
+        Err(_) => assert!(!accept),
+        Ok((new, _events)) => {
+            assert!(accept);
+            assert!(new.len() == (e0_left as usize) + (a_inserted as usize) + (b_inserted as usize));
+            if e0_left { assert!(new.has(&key(e0))); }
+            if a_inserted {
+                match new.get(&key(a)) {
+                    Some(info) => assert!(b_same_as_a || info.comment.is_some() == CM),
+                    None => assert!(false),
+                }
+            }
+            if b_inserted { assert!(new.has(&key(b))); }
+            if REM && !(ADDS >= 1 && a == r) && !(ADDS >= 2 && b == r) { assert!(!new.has(&key(r))); }
+        }
+    }
+    // the configuration the delta was computed from is untouched
+    assert!(routes.len() == HAVE as usize);
+    assert!(routes.has(&key(e0)) == HAVE);
+    // witnesses (few: CBMC builds a full trace per satisfied witness, which is
+    // what exhausted memory with ten of them)
+    kani::cover!(if !HAVE && REM { res.is_err() } else { res.is_ok() });
+    kani::cover!(res.is_err() && if ADDS >= 1 { rem_ok && spec_len_valid(&a) && spec_held_v4(held, &a) && (a_dup || !b_ok) } else { !rem_ok });
+    // comment update of an existing entry resp. remove-then-re-add in one delta
+    kani::cover!(ADDS < 1 || !HAVE || if REM { res.is_ok() && r == e0 && a == e0 } else if CM { res.is_ok() && a_same_as_e0 } else { res.is_err() && a_dup });
+    kani::cover!(ADDS < 2 || (res.is_err() && a_ok && rem_ok && b_same_as_a && bk == ak));    // duplicate inside the delta
+    std::mem::forget((res, routes, resources, updates));
+}
+
+// vk: timeout=900; flags=--no-assertion-reach-checks --no-memory-safety-checks; bound=empty configuration, delta = 1 removal (always unknown); every payload an arbitrary IPv4 prefix with any max length and origin, held = one arbitrary IPv4 prefix (RoaPayload::held_by replaced by its specification, shown equivalent by c05b_held_by_v4); model map (harness/kani_map.rs)
+#[kani::proof]
+#[kani::unwind(5)]
+#[kani::stub(rpki::repository::x509::Time::now, stub_now)]
+#[kani::stub(crate::api::roa::RoaPayload::held_by, stub_held_by)]
+fn c05f_roa_delta_empty_rem() { roa_delta::<false, true, 0, false>(); }
+
+// vk: tier=thorough; timeout=1500; flags=--no-assertion-reach-checks --no-memory-safety-checks; bound=1 existing authorisation, delta = 1 removal; every payload an arbitrary IPv4 prefix with any max length and origin, held = one arbitrary IPv4 prefix (RoaPayload::held_by replaced by its specification, shown equivalent by c05b_held_by_v4); model map (harness/kani_map.rs)
+#[kani::proof]
+#[kani::unwind(5)]
+#[kani::stub(rpki::repository::x509::Time::now, stub_now)]
+#[kani::stub(crate::api::roa::RoaPayload::held_by, stub_held_by)]
+fn c05f_roa_delta_have_rem() { roa_delta::<true, true, 0, false>(); }
+
+// vk: timeout=1500; flags=--no-assertion-reach-checks --no-memory-safety-checks; bound=1 existing authorisation, delta = 1 addition, no comments (same payload = duplicate); every payload an arbitrary IPv4 prefix with any max length and origin, held = one arbitrary IPv4 prefix (RoaPayload::held_by replaced by its specification, shown equivalent by c05b_held_by_v4); model map (harness/kani_map.rs)
+#[kani::proof]
+#[kani::unwind(5)]
+#[kani::stub(rpki::repository::x509::Time::now, stub_now)]
+#[kani::stub(crate::api::roa::RoaPayload::held_by, stub_held_by)]
+fn x05f_roa_delta_have_add() { roa_delta::<true, false, 1, false>(); }
+
+// vk: tier=thorough; timeout=2400; flags=--no-assertion-reach-checks --no-memory-safety-checks; bound=1 existing authorisation with a one-letter comment, delta = 1 addition with a one-letter comment (same payload: same letter = duplicate, other letter = comment update); every payload an arbitrary IPv4 prefix with any max length and origin, held = one arbitrary IPv4 prefix (RoaPayload::held_by replaced by its specification, shown equivalent by c05b_held_by_v4); model map (harness/kani_map.rs)
+#[kani::proof]
+#[kani::unwind(5)]
+#[kani::stub(rpki::repository::x509::Time::now, stub_now)]
+#[kani::stub(crate::api::roa::RoaPayload::held_by, stub_held_by)]
+fn x05f_roa_delta_have_add_comments() { roa_delta::<true, false, 1, true>(); }
+
+// vk: tier=thorough; timeout=2400; flags=--no-assertion-reach-checks --no-memory-safety-checks; bound=1 existing authorisation, delta = 1 removal + 1 addition (incl. remove-then-re-add); every payload an arbitrary IPv4 prefix with any max length and origin, held = one arbitrary IPv4 prefix (RoaPayload::held_by replaced by its specification, shown equivalent by c05b_held_by_v4); model map (harness/kani_map.rs)
+#[kani::proof]
+#[kani::unwind(5)]
+#[kani::stub(rpki::repository::x509::Time::now, stub_now)]
+#[kani::stub(crate::api::roa::RoaPayload::held_by, stub_held_by)]
+fn x05f_roa_delta_have_rem_add() { roa_delta::<true, true, 1, false>(); }
+
+// vk: tier=thorough; timeout=2400; flags=--no-assertion-reach-checks --no-memory-safety-checks; bound=empty configuration, delta = 2 additions (the second may repeat the first); every payload an arbitrary IPv4 prefix with any max length and origin, held = one arbitrary IPv4 prefix (RoaPayload::held_by replaced by its specification, shown equivalent by c05b_held_by_v4); model map (harness/kani_map.rs)
+#[kani::proof]
+#[kani::unwind(5)]
+#[kani::stub(rpki::repository::x509::Time::now, stub_now)]
+#[kani::stub(crate::api::roa::RoaPayload::held_by, stub_held_by)]
+fn x05f_roa_delta_two_adds() { roa_delta::<false, false, 2, false>(); }
+
+/// An IPv6 addition can never be held by a CA whose only resource is an IPv4
+/// prefix: refused, whatever its bits (the address-family finding F4 seen
+/// through `process_updates`; here the REAL `held_by` runs).
+// vk: timeout=1500; flags=--no-assertion-reach-checks --no-memory-safety-checks; bound=empty configuration, delta = 1 addition of an arbitrary IPv6 payload, held = one arbitrary IPv4 prefix; real held_by; model map
+#[kani::proof]
+#[kani::unwind(6)]
+#[kani::stub(rpki::repository::x509::Time::now, stub_now)]
+fn c05f_roa_delta_v6_add_refused() {
+    let held = any_v4();
+    let resources: ResourceSet = TypedPrefix::V4(held).into();
+    let routes = Routes::default();
+    let a = any_payload_v6();
+    let updates = RoaConfigurationUpdates { added: vec![RoaConfiguration { payload: a, comment: None }], removed: Vec::new() };
+    let ca = CaHandle::new("ca".into());
+    let res = routes.process_updates(&ca, &resources, &updates);
+    assert!(res.is_err());
+    kani::cover!(spec_len_valid(&a));
+    std::mem::forget((res, routes, resources, updates));
+}
+
+/// One addition to an empty configuration: accepted exactly when the maximum
+/// length is valid and the prefix is held; this is the harness that notices a
+/// guard call missing from `process_updates`.
+// vk: timeout=1200; flags=--no-assertion-reach-checks --no-memory-safety-checks; bound=empty configuration, delta = 1 addition without comment; payload an arbitrary IPv4 prefix with any max length and origin, held = one arbitrary IPv4 prefix (RoaPayload::held_by replaced by its specification, shown equivalent by c05b_held_by_v4); model map (harness/kani_map.rs)
+#[kani::proof]
+#[kani::unwind(5)]
+#[kani::stub(rpki::repository::x509::Time::now, stub_now)]
+#[kani::stub(crate::api::roa::RoaPayload::held_by, stub_held_by)]
+fn c05f_roa_delta_empty_add() {
+    let held = any_v4();
+    hold(held);
+    let resources = ResourceSet::default();
+    let routes = Routes::default();
+    let a = any_payload_v4();
+    let updates = RoaConfigurationUpdates { added: vec![RoaConfiguration { payload: a, comment: None }], removed: Vec::new() };
+    let ca = CaHandle::new("ca".into());
+    let res = routes.process_updates(&ca, &resources, &updates);
+    assert!(res.is_ok() == (spec_len_valid(&a) && spec_held_v4(held, &a)));
+    match &res {
+        Ok((new, events)) => assert!(new.len() == 1 && new.has(&key(a)) && events.len() == 1),
+        Err(_) => {}
+    }
+    assert!(routes.len() == 0);
+    kani::cover!(res.is_ok());
+    kani::cover!(res.is_err() && spec_len_valid(&a));
+    std::mem::forget((res, routes, resources, updates));
+}
+
 #[cfg(test)]
 #[path = "/verif/.cache/playback/server_ca_roa.rs"]
 mod playback;
